@@ -15,7 +15,7 @@
    AtomicCell and Condvar implement these transitions. *)
 From BT Require Import Base.Util Base.Float Model.RTree Model.BBIFile Model.BigWigWrite Model.Pipeline
   Proofs.PipelineInv Proofs.PipelineThms Proofs.PipelineConv Proofs.PipelineLanes.
-From BT Require Model.TempBuf.
+From BT Require Model.TempBuf Model.BigBedWrite Proofs.BedZoomFit Proofs.PipelineBed.
 
 (* FIFO order.  In every reachable state, for every completion order of the encode tasks, what the
    write task of chromosome k has written, followed by what is queued, followed by what is not yet
@@ -83,6 +83,32 @@ Theorem C11_splice_bigwig : forall fp o sizes input ids outs sum data,
       sp_file s = bw_pre ++ data_bytes data /\ final_index PRE_DATA s = place PRE_DATA data.
 Proof. exact pipeline_bw_data. Qed.
 Print Assumptions C11_splice_bigwig.
+
+(* The same tie for bigBed.  Model/BigBedWrite.v's two write paths ([bb_write_either false] =
+   bb_write = BigBedWrite::write, [true] = bb_write_multipass; the model whose bytes bin/check C02 and
+   C11 compare with the real writer's) hand  bb_pre sql  (304 blank header bytes, the autoSql text,
+   NUL, summary and count slots) and  data = bb_data o outs  to the shared assemble.  For every
+   accepted call: the per-chromosome section lists  bed_sections  concatenate to  data ; every
+   finishing run of the pipeline machine on them, whatever the capacity, window and schedule, yields
+   the file  bb_pre sql ++ data_bytes data  and the index  place |bb_pre sql| data ; and the FILE the
+   model returns is  pre' ++ data_bytes data ++ rest  with |pre'| = |bb_pre sql| (pre' = bb_pre sql
+   after write_info's three patches, which stay in front of the data: at most 10 zoom levels). *)
+Theorem C11_splice_bigbed : forall two_pass fp o sizes autosql input f,
+  BedZoomFit.bb_write_either two_pass fp o sizes autosql input = Ok f ->
+  exists sql fc ids outs data,
+    BigBedWrite.bb_schema autosql = Ok (sql, fc) /\ BigBedWrite.bb_collect o sizes input = Ok (ids, outs)
+    /\ BigBedWrite.bb_data o outs = Ok data /\
+    (exists pre' rest, length pre' = length (BigBedWrite.bb_pre sql) /\ f = pre' ++ data_bytes data ++ rest) /\
+    exists Ss,
+      Forall2 (fun c S => BigBedWrite.bed_sections (o_ips o) (BigBedWrite.bc_id c) (BigBedWrite.bc_entries c) = Ok S) outs Ss /\
+      concat Ss = data /\
+      forall g sched, g_fifo g = true ->
+        let s := run g sched (init (BigBedWrite.bb_pre sql) Ss) in
+        terminal s = true ->
+        sp_file s = BigBedWrite.bb_pre sql ++ data_bytes data /\
+        final_index (Nlen (BigBedWrite.bb_pre sql)) s = place (Nlen (BigBedWrite.bb_pre sql)) data.
+Proof. exact PipelineBed.pipeline_bb_file. Qed.
+Print Assumptions C11_splice_bigbed.
 
 (* No deadlock: with room for at least one handle and a window of at least one chromosome, every
    reachable state that is not terminal has an enabled transition. *)
@@ -240,6 +266,26 @@ Example C11_example_bigwig_hyp :
        ([97], {| v_start := 20; v_end := 30; v_bits := 1065353216 |}); ([98], {| v_start := 1; v_end := 2; v_bits := 1065353216 |})]
     = Ok (ids, outs, sum, data) /\ length data = 3%nat.
 Proof. eexists. eexists. eexists. eexists. vm_compute. split; reflexivity. Qed.
+
+(* a real bigBed input (overlapping / nested / zero-length entries, an end beyond the chromosome, two
+   chromosomes, items_per_slot 2: three data sections) satisfies the hypothesis of C11_splice_bigbed in
+   both pass modes *)
+Definition ex_bb_opts : opts := {| o_compress := false; o_ips := 2; o_bs := 4; o_izoom := 10; o_maxzooms := 2;
+                                  o_manual := None; o_sort_all := true |}.
+Definition ex_bb_input : list BigBedWrite.bitem :=
+  let e s e r := {| BigBedWrite.e_start := s; BigBedWrite.e_end := e; BigBedWrite.e_rest := r |} in
+  [([97], e 0 50 [120]); ([97], e 0 5 []); ([97], e 20 20 [121; 9; 43]); ([98], e 1 200 [])].
+Example C11_example_bigbed_hyp :
+  (exists f, BedZoomFit.bb_write_either false ieee ex_bb_opts [([97], 100); ([98], 50)] None ex_bb_input = Ok f) /\
+  (exists f, BedZoomFit.bb_write_either true ieee ex_bb_opts [([97], 100); ([98], 50)] None ex_bb_input = Ok f) /\
+  (exists ids outs data, BigBedWrite.bb_collect ex_bb_opts [([97], 100); ([98], 50)] ex_bb_input = Ok (ids, outs)
+                         /\ BigBedWrite.bb_data ex_bb_opts outs = Ok data /\ length data = 3%nat).
+Proof.
+  split; [|split].
+  - eexists. vm_compute. reflexivity.
+  - eexists. vm_compute. reflexivity.
+  - eexists. eexists. eexists. vm_compute. repeat split.
+Qed.
 
 (* converters: chromosome 1's text is complete before chromosome 0 has written a record *)
 Example C11_example_converter :
